@@ -82,6 +82,7 @@ type Agent struct {
 	started  bool
 	stopCh   chan struct{}
 	waitCh   chan error
+	updating chan struct{}     // holds a token while an update round is in progress
 	nodeInfo ethnode.UserAgent // cached during Start
 }
 
@@ -89,6 +90,7 @@ func (a *Agent) init() {
 	a.initOnce.Do(func() {
 		a.stopCh = make(chan struct{})
 		a.waitCh = make(chan error, 1)
+		a.updating = make(chan struct{}, 1)
 	})
 }
 
@@ -194,9 +196,18 @@ func (a *Agent) serveUpdates(p pool.Pool) error {
 		case <-ticker:
 			// A keep-alive that is never answered must not hold the loop
 			// forever, it could not even be stopped then.
+			select {
+			case a.updating <- struct{}{}:
+			default:
+				// An update forced by a caller of UpdatePeers is in progress,
+				// it is this interval's keep-alive. The pool would refuse a
+				// second one on top of it.
+				continue
+			}
 			ctx, cancel := context.WithTimeout(context.Background(), updateTimeout)
-			err := a.UpdatePeers(ctx, p)
+			err := a.updatePeers(ctx, p)
 			cancel()
+			<-a.updating
 			if err != nil {
 				return err
 			}
@@ -228,6 +239,20 @@ func (a *Agent) disconnectPeers(ctx context.Context) error {
 // peers if necessary. Normally this is done automatically via Agent.Start()
 // every configured interval.
 func (a *Agent) UpdatePeers(ctx context.Context, p pool.Pool) error {
+	// One update round at a time: the pool refuses a keep-alive of a node
+	// while it is processing another one, and two rounds reconciling the
+	// node's peers at once would undo each other's work.
+	a.init()
+	select {
+	case a.updating <- struct{}{}:
+		defer func() { <-a.updating }()
+	case <-ctx.Done():
+		return ctx.Err()
+	}
+	return a.updatePeers(ctx, p)
+}
+
+func (a *Agent) updatePeers(ctx context.Context, p pool.Pool) error {
 	peers, err := a.EthNode.Peers(ctx)
 	if err != nil {
 		return err
